@@ -21,6 +21,10 @@ import Hw.Topo.StageTyping
 import Hw.Topo.StageSetsOK
 import Hw.Topo.StageRemoveEmptyKept
 import Hw.Topo.StageSymmetricLemmas
+import Hw.Topo.StageMemoryDump
+import Hw.Topo.StageUnique
+import Hw.Topo.RenderCover
+import Hw.Topo.StageSetsMerge
 namespace Hw.Props.C01
 open Hw.Topo
 
@@ -535,6 +539,124 @@ example : ∃ t2, pipeline exIn exDc (List.replicate 20 0) = some t2 ∧ (symmet
 def exSymB : Tree := exN 1 tMACHINE 0 0 [exN 2 tCORE 0 0 [exN 3 tPU 0 0 [] [] [] []] [] [] [],
   exN 4 5 0 0 [exN 5 tCORE 0 0 [exN 6 tPU 0 0 [] [] [] []] [] [] []] [] [] []] [] [] []
 example : symmetricStage exSymB = [(1, false), (2, true), (3, true), (4, true), (5, true), (6, true)] := by decide +kernel
+
+
+/-! ### dump-form clauses (through `mkAux`) and uniqueness clauses for the composed pipeline -/
+
+/-- **total-memory in dump form**, any typed tree: if the NUMA local memory fits in 64 bits and the carried fields hold the output of
+`propagate_total_memory` (`MemEx`: total_memory = `totalT` of the subtree, attrs[0] of a NUMA node = its local memory), every object of
+`render t` satisfies the WF clause `total-memory` exactly as the oracle evaluates it (through the `totSum` fold of `mkAux`) -/
+theorem C01_total_memory_dump_clause (loc : RObj → Nat) (t : Tree) (ht : typedT t = true) (hb : sumLocalT loc t < W64)
+    (hdr : Hdr) (ex : RObj → Extra) (hex : MemEx loc t ex) (o : Obj) (ho : o ∈ (render t hdr ex).objs) :
+    objClause "total-memory" (render t hdr ex) (mkAux (render t hdr ex)) o = true :=
+  render_total_memory loc t ht hb hdr ex hex o ho
+
+/-- … and `MemEx` holds for the fields written from the stage's own output (`exOfMem`: total by gp_index) whenever gp_index values are
+pairwise distinct -/
+theorem C01_total_memory_fields (loc : RObj → Nat) (t : Tree) (base : RObj → Extra) (hu : ((objsT t).map (·.gp)).Nodup) :
+    MemEx loc t (exOfMem loc t base) := by
+  apply memEx_exOfMem
+  rw [← occs_map_obj, List.map_map] at hu
+  exact hu
+
+/-- **the composed pipeline, dump-form clauses**: with the hypotheses of `C01_pipeline_compose`, the dump rendered from the final tree
+`t2 = keepStructure filters t1` satisfies, for any header and carried fields: children-counts (every object; the four counters of
+`mkAux`), type-depth-inverse, levels-cover-objects; and total-memory (every object) when the local memory fits in 64 bits and the
+fields carry the output of propagate_total_memory. -/
+theorem C01_pipeline_dump_clauses (i : In) (dc : Deco) (filters : List Nat) (hdr : Hdr) (ex : RObj → Extra) (loc : RObj → Nat)
+    (hty : typedT (toTree dc (stage i).root) = true) (hroot : (toTree dc (stage i).root).obj.type = tMACHINE)
+    (t1 : Tree) (h1 : removeEmpty (toTree dc (stage i).root) = some t1) :
+    (∀ o ∈ (render (keepStructure filters t1) hdr ex).objs,
+      objClause "children-counts" (render (keepStructure filters t1) hdr ex) (mkAux (render (keepStructure filters t1) hdr ex)) o = true ∧
+      (sumLocalT loc (keepStructure filters t1) < W64 → MemEx loc (keepStructure filters t1) ex →
+        objClause "total-memory" (render (keepStructure filters t1) hdr ex) (mkAux (render (keepStructure filters t1) hdr ex)) o = true)) ∧
+    topClause "type-depth-inverse" (render (keepStructure filters t1) hdr ex) (mkAux (render (keepStructure filters t1) hdr ex)) = true ∧
+    topClause "levels-cover-objects" (render (keepStructure filters t1) hdr ex) (mkAux (render (keepStructure filters t1) hdr ex)) = true := by
+  have ht1 := removeEmpty_typed _ t1 h1 hty
+  have hn1 : isNormal t1.obj.type = true := by rw [ht1.2, hroot]; decide
+  have ht2 := typed_keepStructure filters t1 ht1.1 hn1
+  exact ⟨fun o ho => ⟨render_children_counts _ ht2.1 hdr ex o ho, fun hb hex => render_total_memory loc _ ht2.1 hb hdr ex hex o ho⟩,
+    render_type_depth_inverse _ hdr ex, render_levels_cover _ ht2.1 ht2.2 hdr ex⟩
+
+/-- **no stage creates an object**: for ANY key of an object that the complete-set update of a merge leaves alone (gp_index, type,
+os_index, cpuset, …), no key value occurs more often among the objects of the final tree than in the tree handed to `remove_empty` -/
+theorem C01_pipeline_no_new_object {α : Type} [DecidableEq α] (f : RObj → α) (hm : ∀ o co, f (absorb o co) = f co) (filters : List Nat)
+    (t0 t1 : Tree) (h1 : removeEmpty t0 = some t1) (a : α) :
+    cnt f a (objsT (keepStructure filters t1)) ≤ cnt f a (objsT t0) := nodup_pipeline f hm filters t0 t1 h1 a
+
+/-- **uniqueness clauses of the composed render**: if gp_index values (resp. PU os_index, NUMA os_index values) are pairwise distinct in
+the tree `t0` handed to `remove_empty`, the dump rendered from the final tree satisfies gp-index-unique (resp. pu-osindex-unique,
+numa-osindex-unique) -/
+theorem C01_pipeline_unique (filters : List Nat) (hdr : Hdr) (ex : RObj → Extra) (t0 t1 : Tree) (h1 : removeEmpty t0 = some t1) :
+    (((objsT t0).map (·.gp)).Nodup →
+      topClause "gp-index-unique" (render (keepStructure filters t1) hdr ex) (mkAux (render (keepStructure filters t1) hdr ex)) = true) ∧
+    ((((objsT t0).filter (fun o => o.type == tPU)).map (·.osidx)).Nodup →
+      topClause "pu-osindex-unique" (render (keepStructure filters t1) hdr ex) (mkAux (render (keepStructure filters t1) hdr ex)) = true) ∧
+    ((((objsT t0).filter (fun o => o.type == tNUMA)).map (·.osidx)).Nodup →
+      topClause "numa-osindex-unique" (render (keepStructure filters t1) hdr ex) (mkAux (render (keepStructure filters t1) hdr ex)) = true) := by
+  refine ⟨fun h => render_gp_unique _ (gp_nodup_of_cnt _ _ (fun k => nodup_pipeline (·.gp) (fun _ _ => rfl) filters t0 t1 h1 k) h) hdr ex,
+    fun h => ?_, fun h => ?_⟩
+  · rw [clause_pu_unique]; simp only [decide_eq_true_eq]; rw [render_os_of_type]
+    exact os_nodup_of_cnt tPU _ _ (fun k => nodup_pipeline tyOs (fun _ _ => rfl) filters t0 t1 h1 (tPU, k)) h
+  · rw [clause_numa_unique]; simp only [decide_eq_true_eq]; rw [render_os_of_type]
+    exact os_nodup_of_cnt tNUMA _ _ (fun k => nodup_pipeline tyOs (fun _ _ => rfl) filters t0 t1 h1 (tNUMA, k)) h
+
+/-- non-vacuity: `exMemT` (two NUMA nodes below a package, one behind a memory-side cache) rendered with the fields of the stage:
+all hypotheses hold and (evaluated) every object passes total-memory and children-counts -/
+example : typedT exMemT = true ∧ sumLocalT exMemLoc exMemT < W64 ∧ ((objsT exMemT).map (·.gp)).Nodup ∧
+    (let d := render exMemT ⟨0, [], none, none⟩ (exOfMem exMemLoc exMemT (fun _ => {}))
+     d.objs.all (fun o => objClause "total-memory" d (mkAux d) o && objClause "children-counts" d (mkAux d) o) = true ∧
+     (d.objs.map (·.totalMem)) = [19000, 11000, 0, 0, 5000, 6000, 8000, 8000]) := by decide +kernel
+example : ((objsT (toTree exDc (stage exIn).root)).map (·.gp)).Nodup ∧
+    (((objsT (toTree exDc (stage exIn).root)).filter (fun o => o.type == tPU)).map (·.osidx)).Nodup := by decide +kernel
+
+
+/-! ### the set clauses through level merging -/
+
+/-- **what hwloc_compare_levels_structure requires, and what makes merging harmless for the sets.**  The C condition for merging two
+adjacent levels is purely structural (`sameStructure`: both levels have the same number of objects, every object of the upper level
+has exactly ONE normal child, which is the object of the lower level at the same position, and no memory children if the lower level
+is the PU level); the sets are not looked at.  If every object with exactly one normal child has the cpuset and the nodeset of that
+child (`tightT`: decidable, a consequence of the WF clauses cpuset-is-disjoint-union-of-children and nodeset-decomposition,
+evaluated by the engine on every rm_after tree) and the clauses `SetQ` of the set stage hold everywhere (they do after `remove_empty`:
+C01_pipeline_compose (a)), then after level merging — any filters, both merge branches, the re-sorting of memory children and the final
+re-sorting of children included — every normal / memory object still satisfies
+  set-in-complete, set-in-parent (cpuset, complete_cpuset, nodeset, complete_nodeset; normal and memory children),
+  memory-child-shares-cpuset, normal siblings pairwise disjoint   (`SetW`),
+the single-child property holds again, and the root keeps its cpuset and nodeset. -/
+theorem C01_sets_through_level_merging (filters : List Nat) (t : Tree) (hs : AllQ SetQ t) (ht : tightT t = true) :
+    AllQ SetW (keepStructure filters t) ∧ AllQ (fun o ns _ => TightQ o ns) (keepStructure filters t) ∧
+    (keepStructure filters t).obj.cpuset = t.obj.cpuset ∧ (keepStructure filters t).obj.nodeset = t.obj.nodeset :=
+  setW_keepStructure filters t hs ht
+
+/-- one merge step in isolation (`mergeNode`, the body of both branches of hwloc_filter_levels_keep_structure): the merged subtree keeps the
+clauses, and the object now at its root has the old cpuset and nodeset and complete sets that are not larger -/
+theorem C01_merge_step_sets (rc : Bool) (o : RObj) (ns ms ios mis : List Tree) (h : AllQ WQ (.node o ns ms ios mis)) :
+    AllQ WQ (mergeNode rc o ns ms ios mis) ∧ Rel o (mergeNode rc o ns ms ios mis).obj := WQ_mergeNode rc o ns ms ios mis h
+
+/-- **in the composition**: with `PreSets i` and the single-child hypothesis on the tree `t1` that `remove_empty` leaves, the final tree of
+the pipeline satisfies the set clauses `SetW` at every normal / memory object -/
+theorem C01_pipeline_sets_through_level_merging (i : In) (dc : Deco) (filters : List Nat) (hpre : PreSets i)
+    (t1 : Tree) (h1 : removeEmpty (toTree dc (stage i).root) = some t1) (ht : tightT t1 = true) :
+    pipeline i dc filters = some (keepStructure filters t1) ∧ AllQ SetW (keepStructure filters t1) ∧
+    setWT (keepStructure filters t1) = true ∧
+    (keepStructure filters t1).obj.cpuset = t1.obj.cpuset ∧ (keepStructure filters t1).obj.nodeset = t1.obj.nodeset := by
+  have hs0 : AllQ SetQ (toTree dc (stage i).root) := allQ_toTree dc (fun o k m h => setQ_of_post dc o k m h) _ (stage_post i hpre)
+  have hs1 := removeEmpty_preserves SetQ SetQ_stable _ t1 h1 hs0
+  have h := setW_keepStructure filters t1 hs1 ht
+  exact ⟨by unfold pipeline; rw [h1]; rfl, h.1, (setWT_iff _).2 h.1, h.2.2.1, h.2.2.2⟩
+
+/-- non-vacuity: Machine > Package > 2 Cores > 1 PU each, a NUMA node on the Package; Package and Core filtered KEEP_STRUCTURE: the Package
+is merged into the Machine (the NUMA node moves up) and each Core into its PU; hypotheses and conclusion evaluated -/
+def exKs : Tree := exN 1 tMACHINE 3 1 [exN 2 tPACKAGE 3 1 [exN 3 tCORE 1 1 [exN 4 tPU 1 1 [] [] [] []] [] [] [],
+  exN 5 tCORE 2 1 [exN 6 tPU 2 1 [] [] [] []] [] [] []] [exN 7 tNUMA 3 1 [] [] [] []] [] []] [] [] []
+def exKsFilters : List Nat := [0, 2, 0, 2] ++ List.replicate 16 0
+example : setQT exKs = true ∧ tightT exKs = true ∧ (objsT (keepStructure exKsFilters exKs)).map (·.gp) = [1, 4, 6, 7] ∧
+    setWT (keepStructure exKsFilters exKs) = true := by decide +kernel
+/-- the single-child hypothesis is needed: a Package whose only Core has a smaller cpuset and a NUMA node of its own — the NUMA node
+(cpuset of the Core) lands below the Machine after the merge and no longer shares its parent's cpuset -/
+def exKsBad : Tree := exN 1 tMACHINE 3 1 [exN 2 tPACKAGE 3 1 [exN 3 tCORE 1 1 [exN 4 tPU 1 1 [] [] [] []] [exN 7 tNUMA 1 1 [] [] [] []] [] []] [] [] []] [] [] []
+example : setQT exKsBad = true ∧ tightT exKsBad = false ∧ setWT (keepStructure exKsFilters exKsBad) = false := by decide +kernel
 
 end Stages
 
